@@ -417,8 +417,10 @@ package bus
 //@ interface (t Tracer) Trace(msg *net.Message, id uint32)
 //@   trusted
 //@ func (o *objectImpl) updateMethodStatistics(uid uint32, d time.Duration)
-//@   trusted
-//@   modifies o.stats[*]
+//@   tags C12
+//@   requires !o.statsMutex.lockw && o.statsMutex.lockr == 0
+//@   modifies everything
+//@   ensures[C12] !o.statsMutex.lockw && o.statsMutex.lockr == 0
 //@ func (c *tracedChannel) Send(msg *net.Message) (err error)
 //@   tags C04
 //@   requires msg != nil && c.Channel != nil && c.tracer != nil
@@ -449,6 +451,25 @@ package bus
 //@   requires msg != nil && c.Channel != nil && c.o != nil
 //@   modifies c.Channel.sent, c.Channel.lasttype, c.Channel.lastid, c.Channel.lastaction, c.Channel.lastservice, c.Channel.lastobject, c.o.stats[*]
 //@   ensures[C04] c.Channel.sent == old(c.Channel.sent) + 1 && c.Channel.lasttype == 2 && c.Channel.lastid == msg.Header.ID && c.Channel.lastaction == msg.Header.Action && c.Channel.lastservice == msg.Header.Service && c.Channel.lastobject == msg.Header.Object
+
+// Method statistics: every operation on the table releases statsMutex on every path (a leaked lock
+// parks the object's mailbox goroutine at the next statistics operation: the object stops
+// answering everybody).
+//@ guarded_by (o *objectImpl) o.statsMutex: o.stats, o.stats[*]
+//@ func (o *objectImpl) ClearStats() (err error)
+//@   tags C12
+//@   requires !o.statsMutex.lockw && o.statsMutex.lockr == 0
+//@   modifies everything
+//@   ensures[C12] !o.statsMutex.lockw && o.statsMutex.lockr == 0
+//@   loop 1:
+//@     invariant o.statsMutex.lockw && o.stats != nil
+//@ func (o *objectImpl) Stats() (result map[uint32]MethodStatistics, err error)
+//@   tags C12
+//@   requires !o.statsMutex.lockw && o.statsMutex.lockr == 0
+//@   modifies everything
+//@   ensures[C12] !o.statsMutex.lockw && o.statsMutex.lockr == 0
+//@   loop 1:
+//@     invariant o.statsMutex.lockw && stats != nil
 
 // Tracing must not feed itself: a trace event (signal 0x56) sent through a traced channel would be
 // traced again, without end (the server process dies of stack exhaustion). objectImpl.Trace is the
